@@ -93,8 +93,9 @@ class Session(BusSession):
         ops = []
         for target in ('N', 'uB', 'closed', 'unowned', 'bus'):
             for kind, flags in (('call', 0), ('call', 1), ('call', 2), ('signal', 0), ('return', 1), ('error', 1)):
-                if self.params.get('small') and (kind, flags) not in (('call', 0), ('signal', 0)):
-                    continue
+                if self.params.get('small') and (kind, flags) not in (('call', 0), ('signal', 0)) and \
+                        not ((kind, flags) in (('call', 1), ('call', 2)) and target in ('unowned', 'closed') and l == 'A'):
+                    continue      # (the quick tier keeps the flagged calls for the undeliverable targets, from one sender)
                 ops.append(['send', l, target, kind, flags])
         return ops
 
